@@ -117,6 +117,68 @@ def mk_tokens(rng, words):
     return [Token(word=w) if rng.random() < 0.5 else Token.of_word(w) for w in words]
 
 
+# ---------- documents that are edited in place between two filter calls ----------
+# A Token is a mutable dict; a document lives for several passes (tokenise / normalise / tag again).  An edit is plain data
+# (JSON-able, replayable): (name, sentence, index, new word) or ('swap', sentence, index, sentence2, index2) or ('read', sentence, index, None).
+EDIT_KINDS = ['set', 'set', 'update', 'update_dict', 'pop', 'del', 'clear', 'ior', 'setdefault']
+
+
+def apply_edit(docs, op):
+    """apply one edit through the dict interface; `docs` is a list of lists of Token objects or of plain dicts (the harness's shadow copy)"""
+    name = op[0]
+    if name == 'swap':
+        a, b = docs[op[1]][op[2]], docs[op[3]][op[4]]
+        a['word'], b['word'] = b['word'], a['word']
+        return
+    t, w = docs[op[1]][op[2]], op[3]
+    if name == 'read':              # an earlier reader of the document (attribute access, as depccg itself reads tokens); no change of content
+        if isinstance(t, Token):
+            t.word
+    elif name == 'set':
+        t['word'] = w
+    elif name == 'update':
+        t.update(word=w)
+    elif name == 'update_dict':
+        t.update({'word': w})
+    elif name == 'pop':
+        t.pop('word')
+        t['word'] = w
+    elif name == 'del':
+        del t['word']
+        t['word'] = w
+    elif name == 'clear':
+        items = dict(t)
+        items['word'] = w
+        t.clear()
+        t.update(items)
+    elif name == 'ior':
+        t |= {'word': w}
+    elif name == 'setdefault':
+        t.pop('word')
+        t.setdefault('word', w)
+    elif name == 'other_key':       # an attribute the filter does not look at
+        t['lemma'] = w
+    else:
+        raise ValueError(name)
+
+
+def rebuild_history(hist, cats, cd):
+    """the Token objects of a replay file: the initial tokens, the edits before the first pass, then per earlier pass one filter call
+    (scores of an earlier pass do not matter to a later one: zeros) followed by that pass's edits"""
+    toks_ = [[Token(**dict(items)) for items in s] for s in hist['initial']]
+    for op in hist['pre']:
+        apply_edit(toks_, op)
+    for ops in hist['rounds']:
+        sc = [ScoringResult(numpy.zeros((len(s), len(cats)), dtype=numpy.float32), numpy.zeros((len(s), len(s) + 1), dtype=numpy.float32)) for s in toks_]
+        try:
+            P.apply_category_filters(toks_, sc, list(cats), {w: list(cs) for w, cs in cd.items()})
+        except Exception as e:      # noqa
+            print(f'   (an earlier pass raised {type(e).__name__}: {e})')
+        for op in ops:
+            apply_edit(toks_, op)
+    return toks_
+
+
 def rand_dict(rng, cats, pool, extra_cats=()):
     cd = {}
     for w in rng.sample(pool + ABSENT, rng.randint(0, min(5, len(pool) + len(ABSENT)))):
@@ -160,9 +222,11 @@ def run(ctx):
     inv = {lang: [Category.parse(s) for s in gen.inventory(lang)] for lang in ('en', 'ja')}
     cases, descr = [], []
 
-    def one_call(kind, dform, sform, sents, arrs, cats, cd, lnv, malformed=False, fn='filter'):
-        """run the implementation once; emit the correspondence case; evaluate the independent oracle"""
-        toks_ = [mk_tokens(rng, s) for s in sents]
+    def one_call(kind, dform, sform, sents, arrs, cats, cd, lnv, malformed=False, fn='filter', tokens=None, shadow=None, history=None):
+        """run the implementation once; emit the correspondence case; evaluate the independent oracle.
+        tokens: existing Token objects of a document that lives across calls (sents = their CURRENT words, read through the dict interface);
+        shadow: the content those tokens must have (plain dicts kept by the harness); history: how they got there (for the replay)"""
+        toks_ = tokens if tokens is not None else [mk_tokens(rng, s) for s in sents]
         toks0 = [[dict(t) for t in s] for s in toks_]
         arrs0 = [(t.copy(), d.copy()) for t, d in arrs]
         layout = rng.choice(LAYOUTS)
@@ -177,6 +241,8 @@ def run(ctx):
         data = {'kind': kind, 'doc_form': dform, 'scores_form': sform, 'sentences': sents, 'categories': [str(c) for c in cats],
                 'dictionary': {w: [str(c) for c in cs] for w, cs in cd.items()}, 'large_negative_value': lnv,
                 'tag_scores': [t.tolist() for t, _ in arrs0], 'dep_scores': [d.tolist() for _, d in arrs0], 'fn': fn, 'tag_layout': layout}
+        if history is not None:
+            data['mutation_history'] = history
         ctx.count(f'{fn}:{kind}:{obs[0] if obs[0] == "ok" else obs[1]}')
         nontriv = obs[0] == 'ok' and any(w in cd for s in sents for w in s)
         ctx.case((fn, kind, dform, sform, tuple(map(tuple, sents)), tuple(str(c) for c in cats), tuple((w, tuple(map(str, cs))) for w, cs in cd.items()),
@@ -227,6 +293,14 @@ def run(ctx):
             return obs
         if [[dict(t) for t in s] for s in toks_] != toks0:
             ctx.fail('tokens_changed', 'token attributes were modified', data)
+        if shadow is not None:
+            # an edited token is still nothing but its items: equal (both ways) to a freshly built Token with the same content
+            for k, (ts, ss) in enumerate(zip(toks_, shadow)):
+                for i, (t, c) in enumerate(zip(ts, ss)):
+                    fresh = Token(**c)
+                    if not (dict(t) == c and t == fresh and fresh == t and not (t != fresh)):
+                        ctx.fail('tokens_changed', f'token [{k}][{i}] is {t!r} after the edits and the filter call; a fresh token with the content the edits give is {fresh!r}', data)
+                        return obs
         if not (len(rsc) == len(arrs)):
             ctx.fail('scores_changed', f'{len(rsc)} score results returned for {len(arrs)} sentences', data)
             return obs
@@ -245,7 +319,13 @@ def run(ctx):
                         want = t0[i, j] if (w not in listed or names[j] in listed[w]) else big
                         if not (rt[i, j] == want):
                             why = 'word not in the dictionary' if w not in listed else ('category listed for the word' if names[j] in listed[w] else 'category not listed for the word')
-                            ctx.fail('wrong_entry', f'{which} tag score [{k}][{i}][{j}] (word {w!r}, category {names[j]!r}: {why}) is {rt[i, j]!r}, expected {want!r} (input {t0[i, j]!r})', data)
+                            note = ''
+                            if tokens is not None:
+                                try:
+                                    note = f'; the token was edited in place before this pass: token["word"] is {toks_[k][i]["word"]!r}, token.word reads {toks_[k][i].word!r}'
+                                except Exception as e:      # noqa
+                                    note = f'; the token was edited in place before this pass ({type(e).__name__} on reading it back)'
+                            ctx.fail('wrong_entry', f'{which} tag score [{k}][{i}][{j}] (word {w!r}, category {names[j]!r}: {why}) is {rt[i, j]!r}, expected {want!r} (input {t0[i, j]!r}){note}', data)
                             return obs
         return obs
 
@@ -290,6 +370,106 @@ def run(ctx):
         lnv = rng.choice([None, None, -1000.0, -2.0 ** 20, -1.0, 0.0, -3.5e38 / 4])
         one_call('dup-categories' if dup else ('unknown-dict-category' if extra and any(c in cs for cs in cd.values() for c in extra) else 'well-shaped'),
                  form, form, sents, arrs, cats, cd, lnv)
+
+    # ------------------------------------------------------------------ 1b. mutated documents: the SAME token objects through several passes, edited in place in between
+    # (lower-casing / normalising a document, swapping words, update / pop + reinsert).  Every pass is judged - by the same oracle and the same model -
+    # on the words the document holds at the time of the call.  Two orders: the filter is the first reader of the tokens, or the harness (any earlier
+    # consumer) has read them through attribute access and possibly edited them before the first pass.
+    def variants(w):
+        return [v for v in dict.fromkeys([w.lower(), w.upper(), w.capitalize(), w.swapcase(), w.strip(), ESCAPES.get(w, w), w + 's', w[:-1]]) if v != w]
+
+    def new_word(w, cd, vocab):
+        """another word, preferably one that the dictionary treats differently (membership or category list)"""
+        sig = lambda x: None if x not in cd else frozenset(str(c) for c in cd[x])      # noqa
+        var = variants(w)
+        near = [v for v in var if sig(v) != sig(w)]
+        far = [v for v in vocab if v != w and sig(v) != sig(w)]
+        r = rng.random()
+        if near and r < 0.4:
+            return rng.choice(near)
+        if far and r < 0.85:
+            return rng.choice(far)
+        return rng.choice(var + [v for v in vocab if v != w])
+
+    def rand_edits(shadow, cd, vocab):
+        """edits of one normalisation step, as data; applied to the shadow while they are drawn (a swap must see the words of the moment)"""
+        pos = [(k, i) for k, s in enumerate(shadow) for i in range(len(s))]
+        ops = []
+        style = rng.random()
+        if style < 0.2:             # lower-/upper-case the whole document with one idiom
+            f, kind = rng.choice([str.lower, str.upper, str.capitalize]), rng.choice(EDIT_KINDS)
+            ops = [(kind, k, i, f(shadow[k][i]['word'])) for k, i in pos]
+        elif style < 0.35 and len(pos) > 1:     # swap words between tokens
+            for _ in range(rng.randint(1, len(pos))):
+                (k, i), (k2, i2) = rng.sample(pos, 2)
+                ops.append(('swap', k, i, k2, i2))
+        else:
+            for k, i in rng.sample(pos, rng.randint(1, len(pos))):
+                r = rng.random()
+                if r < 0.08:
+                    ops.append(('read', k, i, None))
+                elif r < 0.14:
+                    ops.append(('other_key', k, i, rng.choice(vocab)))
+                elif r < 0.24 and len(pos) > 1:
+                    k2, i2 = rng.choice([p for p in pos if p != (k, i)])
+                    ops.append(('swap', k, i, k2, i2))
+                else:
+                    ops.append((rng.choice(EDIT_KINDS), k, i, None))        # word drawn below, from the word of the moment
+        done = []
+        for op in ops:
+            if op[0] in EDIT_KINDS and op[3] is None:
+                op = (op[0], op[1], op[2], new_word(shadow[op[1]][op[2]]['word'], cd, vocab))
+            apply_edit(shadow, op)
+            done.append(list(op))
+            ctx.count(f'mutated:edit:{op[0]}')
+        return done
+
+    n_mut = 60 if ctx.quick else 600
+    for it in range(n_mut):
+        cats = rand_cats()
+        form = 'one' if rng.random() < 0.25 else 'many'
+        sents = rand_sents(1 if form == 'one' else None)
+        doc_words = list({w for s in sents for w in s})
+        vocab = list(dict.fromkeys(doc_words + [v for w in doc_words for v in variants(w)] + WORDS + ABSENT))
+        # the dictionary is over the words of the document AND the words the edits can produce
+        others = [v for v in vocab if v not in doc_words]
+        cd = rand_dict(rng, cats, doc_words + rng.sample(others, min(len(others), len(doc_words) + 1)))
+        toks_ = [mk_tokens(rng, s) for s in sents]
+        shadow = [[dict(t) for t in s] for s in toks_]
+        hist = {'initial': [[[list(kv) for kv in t.items()] for t in s] for s in toks_], 'pre': [], 'rounds': []}
+        if rng.random() < 0.5:
+            # reverse order: someone has read the tokens (token.word) before the filter sees them for the first time, and then edits them
+            pre = [('read', k, i, None) for k, s in enumerate(toks_) for i in range(len(s)) if rng.random() < 0.8]
+            for op in pre:
+                apply_edit(toks_, op)
+            pre = [list(op) for op in pre]
+            if rng.random() < 0.75:
+                ops = rand_edits(shadow, cd, vocab)
+                for op in ops:
+                    apply_edit(toks_, op)
+                pre += ops
+            hist['pre'] = pre
+            ctx.count('mutated:read_before_first_pass')
+        else:
+            ctx.count('mutated:filter_is_first_reader')
+        nrounds = rng.randint(3, 5)
+        for r in range(nrounds):
+            words = [[t['word'] for t in s] for s in toks_]
+            before_sig = [[(w in cd, tuple(sorted(str(c) for c in cd.get(w, [])))) for w in s] for s in words]
+            arrs = [mk_arrays(rng, len(s), len(cats)) for s in words]
+            lnv = rng.choice([None, None, -1000.0, -2.0 ** 20, -1.0])
+            one_call('mutated-doc', form, form, words, arrs, cats, cd, lnv, tokens=toks_, shadow=shadow,
+                     history={'initial': hist['initial'], 'pre': hist['pre'], 'rounds': [list(x) for x in hist['rounds']]})
+            ctx.count(f'mutated:pass:{r}')
+            if r == nrounds - 1:
+                break
+            ops = rand_edits(shadow, cd, vocab)
+            for op in ops:
+                apply_edit(toks_, op)
+            hist['rounds'].append(ops)
+            after = [[t['word'] for t in s] for s in toks_]
+            after_sig = [[(w in cd, tuple(sorted(str(c) for c in cd.get(w, [])))) for w in s] for s in after]
+            ctx.count('mutated:tokens_whose_dictionary_entry_changed', sum(a != b for sa, sb in zip(before_sig, after_sig) for a, b in zip(sa, sb)))
 
     # ------------------------------------------------------------------ 2. ill-shaped / ill-formed calls: both sides must reject, nothing may change
     def malformed_case():
@@ -499,7 +679,10 @@ def run(ctx):
         rule='cases = calls of the real apply_category_filters / _type_check on fresh numpy float32 arrays with integer scores in C-contiguous, Fortran, column-sliced, row-sliced and reversed-stride layouts: random category lists from the shipped '
              'inventories (some with a repeated category), 1-4 sentences over a small word pool (repeated words, an empty non-first sentence), random dictionaries '
              '(words absent from the document, empty lists, repeated categories, sometimes a category outside the list), single-sentence and list forms, several '
-             'large-negative values incl. the default; an ill-shaped stream (15 kinds of shape/form/count defects, non-2-D arrays); apply_filter with explicit index '
+             'large-negative values incl. the default; a mutated-documents stream (the same Token objects through 3-5 passes with fresh scores, edited in place through the dict '
+             'interface between the passes - item assignment, update, pop/del + reinsert, clear + update, |=, setdefault, swaps between tokens, whole-document re-casing - '
+             'towards words the dictionary treats differently; in half of the documents the tokens are read by attribute and edited before the first pass; every pass '
+             'judged on the current words, tokens compared with freshly built ones); an ill-shaped stream (15 kinds of shape/form/count defects, non-2-D arrays); apply_filter with explicit index '
              'lists; every distinct string of the shipped files through the real Category.parse; the shipped dictionary on documents of its own words; '
              'non-trivial = a document word is a dictionary key / an ill-shaped input; distinct by full input',
         assumptions=['scores are exact integers in float32 range; the large negative value is modelled as the integer float32(large_negative_value) denotes',
@@ -532,7 +715,16 @@ def replay(data):
         arrs = [(t if t.ndim >= 2 or t.size else t.reshape(0, len(cats)), dd if dd.ndim >= 2 or dd.size else dd.reshape(0, 1)) for t, dd in arrs]
         arrs0 = [(t.copy(), dd.copy()) for t, dd in arrs]
         arrs = [(relayout(t, d.get('tag_layout', 'C')), dd) for t, dd in arrs]
-        toks_ = [[Token(word=w) for w in s] for s in sents]
+        if d.get('mutation_history'):
+            # the token objects with their history: earlier readers, in-place edits and earlier passes of the filter
+            hist = d['mutation_history']
+            toks_ = rebuild_history(hist, cats, cd)
+            print(f"   document edited in place: {len(hist['pre'])} reads/edits before the first pass, {len(hist['rounds'])} earlier pass(es) with "
+                  f"{sum(len(x) for x in hist['rounds'])} edits; the words are now {[[t['word'] for t in s] for s in toks_]}")
+            if [[t['word'] for t in s] for s in toks_] != sents:
+                print(f'   (the rebuilt document does not hold the recorded words {sents})')
+        else:
+            toks_ = [[Token(word=w) for w in s] for s in sents]
         doc_arg = toks_[0] if d['doc_form'] == 'one' else toks_
         sc_arg = ScoringResult(*arrs[0]) if d['scores_form'] == 'one' else [ScoringResult(t, dd) for t, dd in arrs]
         obs = observe(d.get('fn', 'filter'), doc_arg, sc_arg, cats, cd, d.get('large_negative_value'))
